@@ -24,7 +24,7 @@ effects) do NOT use this form: substituting ``t = next(tokens)`` would duplicate
 import ast
 import copy
 
-from .inline import inlined, clone, set_parents
+from .inline import inlined, inline_all, clone, set_parents
 
 
 def _parents(fn):
@@ -241,19 +241,19 @@ def forward_substitute(fn, keep=()):
 _CACHE = {}
 
 
-def canon(repo, cls, fn, module=None, keep=()):
-    key = (id(repo), cls, id(fn), module, tuple(keep))
+def canon(repo, cls, fn, module=None, keep=(), public=False):
+    key = (id(repo), cls, id(fn), module, tuple(keep), public)
     if key not in _CACHE:
-        new = forward_substitute(inlined(repo, cls, fn, module=module), keep=keep)
+        new = forward_substitute(inline_all(repo, cls, fn, module=module, public=public), keep=keep)
         set_parents(new, getattr(fn, "_parent", None))
         _CACHE[key] = new
     return _CACHE[key]
 
 
-def canon_method(repo, cls, name, keep=()):
+def canon_method(repo, cls, name, keep=(), public=False):
     """canonical form of method *name* as defined in class *cls* (anchor check included)"""
     fn = repo.method(cls, name)
-    return canon(repo, cls, fn, module=repo.classes[cls].module.name, keep=keep)
+    return canon(repo, cls, fn, module=repo.classes[cls].module.name, keep=keep, public=public)
 
 
 def canon_function(repo, module, name, keep=()):
